@@ -1136,7 +1136,7 @@ class StyleProcessors:
       
       if position.v_edge is styles.PositionType.VEdge.bottom:
         v_offset = styles.LengthType(
-          value=100 - v_offset.value,
+          value=100 - extent.height.value - v_offset.value,
           units=v_offset.units
         )
 
@@ -1150,7 +1150,7 @@ class StyleProcessors:
 
       if position.h_edge is styles.PositionType.HEdge.right:
         h_offset = styles.LengthType(
-          value=100 - h_offset.value,
+          value=100 - extent.width.value - h_offset.value,
           units=h_offset.units
         )
 
